@@ -213,6 +213,10 @@ def gen_cfg(name: str, rc: random.Random, tier: str) -> dict:
         g.update(num_job=_size(rc, tier))
         if rc.random() < 0.3:
             g.update(max_time_span=rc.choice([1.0, 4.0]), max_process_time=rc.choice([1, 2.0]))
+        if rc.random() < 0.3:  # documented lower bounds other than zero
+            g.update(min_time_span=rc.choice([0.5, 1.0]), max_time_span=rc.choice([2.0, 4.0]),
+                     min_job_weight=rc.choice([0.25, 1.0]), max_job_weight=2.0,
+                     min_process_time=rc.choice([0.25, 0.5]), max_process_time=1.0)
     elif name == "flp":
         n = max(3, _size(rc, tier))
         g.update(num_loc=n, to_choose=rc.randint(1, min(n - 1, 10)), **_locdist(rc))
@@ -533,7 +537,14 @@ def check_ranges(ctx, gen, td, B):
         _check_coords(ctx, td, ["locs"], _loc_bounds(cfg))
         _check_depot_coords(ctx, td)
         n = g["num_loc"]
-        for k, hi in (("penalty", gen.max_penalty), ("deterministic_prize", 4.0 / n)):
+        # documented scale of the penalties (Kool et al.): U(0, L * penalty_factor / n) with L the tour-length
+        # estimate of the nearest table size (20: 2, 50: 3, 100: 4) -- recomputed here, not read off the generator
+        table = {20: 2.0, 50: 3.0, 100: 4.0}
+        pen_hi = table[min(table, key=lambda x: abs(x - n))] * float(g.get("penalty_factor", 3.0)) / n
+        if abs(float(gen.max_penalty) - pen_hi) > 1e-6 * pen_hi:
+            ctx.fail("range", "penalty_scale", f"penalties are drawn from U(0, {float(gen.max_penalty)}), documented "
+                     f"L*penalty_factor/n = {pen_hi} for n={n}")
+        for k, hi in (("penalty", pen_hi), ("deterministic_prize", 4.0 / n)):
             x = td[k].double()
             if float(x.min()) < 0.0 or float(x.max()) > hi * (1 + 1e-6):
                 ctx.fail("range", k, f"{k} in [{float(x.min())}, {float(x.max())}] outside [0, {hi}]")
